@@ -31,7 +31,8 @@ TLoop2 == T("loop2", <<
 
 TSlash == T("slash", <<
     D(5, R, "a"), F(6, R, "f"), L(7, R, "las", <<"a", "">>), L(8, R, "lfs", <<"f", "">>),
-    L(9, R, "lroot", <<"", "">>), L(10, R, "ldd", <<"a", "", "..", "">>), L(11, 5, "back", <<"..", "f">>)
+    L(9, R, "lroot", <<"", "">>), L(10, R, "ldd", <<"a", "", "..", "">>), L(11, 5, "back", <<"..", "f">>),
+    L(12, 5, "abs2", <<"", "f">>)        \* an absolute link that does NOT sit in the root: restarting at the root matters
   >>, 3)
 
 TFifo == T("fifo", <<
